@@ -13,7 +13,7 @@ def run(patch, pid):
     r = sh("git", "-C", "/repo", "apply", patch)
     if r.returncode: return None, "patch does not apply"
     try:
-        c = sh(os.path.join(V, "check"), pid, cwd=V)
+        c = sh(os.path.join(V, "check"), pid, cwd=V, env=dict(os.environ, VERIF_SCRATCH="1"))
     finally:
         sh("git", "-C", "/repo", "checkout", "--", ".")
     viol = [l for l in c.stdout.splitlines() if l.startswith("VIOLATION property=%s " % pid)]
